@@ -177,3 +177,42 @@ def strict_ranges_forms(h):
             's._useStrictRange is True and s._strictMin[0] == wl0 and s._strictMin[1] == wl1 and s._strictMax[0] == wh0 and s._strictMax[1] == wh1',
             s=s, wl0=wl[0], wl1=wl[1], wh0=wh[0], wh1=wh[1])
     h.check('objective-marked-stale', 's._live is False', s=s)
+
+
+@contract('C02/SetStrictRanges/whatever-was-stored-before', ['C02', 'C07'], A + '.SetStrictRanges', native=False)
+def strict_ranges_prestate(h):
+    """the effect of SetStrictRanges(min, max) does not depend on what an earlier call left behind: ranges switched off in
+    between (the stored limits stay), the same box or another one stored, the same or other tight / clip options
+    remembered -- afterwards the ranges are ON with the given limits, the bounds constraint is rebuilt from them and the
+    objective is marked stale"""
+    if not h.is_sym():
+        h.unsupported('symbolic only')
+    was_on = h.choice('ranges_were_on', [False, True])
+    same_box = h.choice('stored_limits_equal_the_new_ones', [True, False])
+    opts = h.choice('remembered_options', ['same', 'other'])
+    s, vals = _sentinel_solver(h)
+    mn, mx = h.vec('min', 2), h.vec('max', 2)
+    h.assume('mn[0] <= mx[0] and mn[1] <= mx[1]', mn=mn, mx=mx)
+    if same_box:
+        old_mn, old_mx = h.clist(list(h.st.heap[mn]), nd=True), h.clist(list(h.st.heap[mx]), nd=True)
+    else:
+        old_mn, old_mx = h.vec('old_min', 2, nd=True), h.vec('old_max', 2, nd=True)
+    oldb = h.fn('OLD_BOUNDS_CONSTRAINT', ret='same')
+    for f, v in (('_useStrictRange', was_on), ('_strictMin', old_mn), ('_strictMax', old_mx), ('_strictbounds', oldb),
+                 ('_useTightRange', None if opts == 'same' else True), ('_useClipRange', None)):
+        h.set_field(s, f, v)
+    built = h.fn('BOUNDS_CONSTRAINT', ret='same')
+    seen = {}
+
+    def boundsconstraints(I, c, args, kwargs):
+        cell = I.st.heap[args[0]]
+        seen['strict'], seen['min'], seen['max'] = cell['_useStrictRange'], cell['_strictMin'], cell['_strictMax']
+        return built
+    h.set_summaries({(AS, 'AbstractSolver._boundsconstraints'): boundsconstraints})
+    h.call(h.getattr(s, 'SetStrictRanges'), mn, mx)
+    e = dict(s=s, mn=mn, mx=mx, built=built)
+    h.check('ranges-on-with-the-given-limits', 's._useStrictRange is True and seq_eq(s._strictMin, mn) and seq_eq(s._strictMax, mx)', **e)
+    h.check('bounds-constraint-rebuilt-from-the-recorded-ranges',
+            'same(s._strictbounds, built) and strict is True and same(smin, s._strictMin) and same(smax, s._strictMax)',
+            strict=seen.get('strict'), smin=seen.get('min'), smax=seen.get('max'), **e)
+    h.check('objective-marked-stale-so-the-ranges-are-in-force-at-the-next-evaluation', 's._live is False', **e)
